@@ -47,7 +47,7 @@ CLAIMS = {
             'Trusted: CrossHair, z3, the 30-line oracle, the stub map root; data-type languages are C13\'s. Values <= 2 (3) characters or boundary tables.',
             'DESIGN.md §5 C15'),
     'C19': ('other', 'bounded symbolic execution (CrossHair+z3) of escape_html_chars, error_html.gen_seg and footer over hostile inputs',
-            'escape_html_chars is checked on every string of <= 3 (5) characters (no markup, entity-closed, invertible); gen_seg/footer are run on error nodes built by the real '
+            'escape_html_chars is checked on every string of <= 3 (4) characters (no markup, entity-closed, invertible); gen_seg/footer are run on error nodes built by the real '
             'err_handler with segment ids, values, delimiters and messages chosen symbolically from hostile tables: outside the fixed template tags no < or > may appear and every message is shown.',
             'Trusted: CrossHair, z3, the template-tag list. Table-chosen payloads because %-formatting with %i concretises symbolic strings.',
             'DESIGN.md §5 C19'),
@@ -63,7 +63,7 @@ CLAIMS = {
             'Trusted: CrossHair, z3, the envelope recount. One listed known finding (control numbers that contain the acknowledgement delimiters).',
             'DESIGN.md §5 C06'),
     'C08': ('other', 'bounded symbolic execution (CrossHair+z3) of XMLWriter escaping, x12xml_simple.seg loop bookkeeping on real map nodes and the XML round trip',
-            'Escaping is checked on every string of <= 3 (5) characters; seg() is run for every ordered pair (and every two-call sequence on one renderer) of representative real map nodes '
+            'Escaping is checked on every string of <= 3 (4) characters; seg() is run for every ordered pair (and every two-call sequence on one renderer) of representative real map nodes '
             'from the invariant "stack spells path(previous)": it must render exactly the difference of the two map paths, label every element with its reference designator and convert back; '
             'real valid documents with injected hostile values must survive X12 -> XML -> X12.',
             'Trusted: CrossHair, z3, expat, the path-difference reference. Node pairs limited to a representative set of the 837P 4010 / 997 (835) maps.',
